@@ -49,5 +49,5 @@ Next == /\ i <= Len(Rows)
               ELSE Step(row)
 Spec == Init /\ [][Next]_vars
 Done == PrintT(<<"DONE", Len(Rows), TLCGet("stats").diameter>>)
-Count == (i > Len(Rows)) => PrintT(<<"NVERDICTS", nv>>)
+NVerdicts == (i > Len(Rows)) => PrintT(<<"NVERDICTS", nv>>)
 =============================================================================
